@@ -480,11 +480,21 @@ func genListLit(t *Tape, profile int) string {
 func genListCase(t *Tape, maxOps int) *ListCase {
 	c := &ListCase{}
 	profile := t.Weighted(2, 3, 3, 2)
+	// some arrays are long and tie-heavy: equal sort keys with distinguishable
+	// values (1 vs "1") only show an unstable sort beyond a dozen elements
+	tieHeavy := profile == 1 && t.Chance(1, 2)
 	for i := 0; i < 3; i++ {
 		n := t.Draw(5)
+		if tieHeavy && t.Chance(2, 3) {
+			n = 13 + t.Draw(14)
+		}
 		parts := make([]string, n)
 		for k := range parts {
-			parts[k] = genListLit(t, profile)
+			if tieHeavy {
+				parts[k] = []string{"1", `"1"`, "2", `"2"`, "10", `"10"`, "9", `"9"`}[t.Draw(8)]
+			} else {
+				parts[k] = genListLit(t, profile)
+			}
 		}
 		c.Init[i] = "[" + strings.Join(parts, ", ") + "]"
 	}
